@@ -36,6 +36,6 @@ Emit == /\ ph = 1 /\ ph' = 2 /\ UNCHANGED <<nw, cms, ix>>
         /\ PrintT(ToJson([nw |-> nw, S |-> [i \in 1..Len(ix) |-> BitsOf(ix[i] - 1, nw)], C |-> FullCounts(ix, nw), r |-> res']))
 Next == Pick \/ Emit
 
-SpecLaws == ph = 2 => LET C == TLCEval(FullCounts(ix, nw)) IN
-                      \A k \in 1..Len(cms) : res[k] = "-" \/ Laws(cms[k], ix, res[k], C)
+SpecLaws == ph = 2 => LET C == TLCEval(FullCounts(ix, nw))  c == Code(ix) % Stride IN
+                      \A k \in 1..Len(cms) : Active(k, c) => Laws(cms[k], ix, res[k], C)
 =============================================================================
